@@ -1062,7 +1062,7 @@ def null_model_und_sign(W, bin_swaps=5, wei_freq=.1, seed=None):
     rng = get_rng(seed)
     if not np.allclose(W, W.T):
         raise BCTParamError("Input must be undirected")
-    W = W.copy()
+    W = np.array(W, dtype=float)  # work on a float copy
     n = len(W)
     np.fill_diagonal(W, 0)  # clear diagonal
     Ap = (W > 0)  # positive adjmat
